@@ -180,6 +180,55 @@ def ground_formula(f, pos, terms, cap=120, depth=0):
     return z3.BoolVal(True) if pos else z3.BoolVal(False)
 
 
+def symbols_of(f, cache={}):
+    k = f.get_id()
+    if k in cache:
+        return cache[k]
+    out, todo, seen = set(), [f], set()
+    while todo:
+        x = todo.pop()
+        if x.get_id() in seen:
+            continue
+        seen.add(x.get_id())
+        if z3.is_quantifier(x):
+            todo.append(x.body())
+        elif z3.is_app(x):
+            if x.decl().kind() == z3.Z3_OP_UNINTERPRETED:
+                out.add(x.decl().name())
+            todo.extend(x.children())
+    cache[k] = out
+    return out
+
+
+def cone_of_influence(assertions, levels=2):
+    """the assertions connected to the negated goal (the last assertion that is not a probe definition) through shared symbols"""
+    goal_idx = None
+    for i in range(len(assertions) - 1, -1, -1):
+        if not any(n.startswith('probe!') for n in symbols_of(assertions[i])):
+            goal_idx = i
+            break
+    if goal_idx is None:
+        return list(assertions)
+    syms = set(symbols_of(assertions[goal_idx]))
+    chosen = {goal_idx}
+    for _ in range(levels):
+        added = False
+        for i, a in enumerate(assertions):
+            if i in chosen:
+                continue
+            sa = symbols_of(a)
+            if any(n.startswith('probe!') for n in sa):
+                continue
+            if sa & syms:
+                chosen.add(i)
+                added = True
+        for i in chosen:
+            syms |= symbols_of(assertions[i])
+        if not added:
+            break
+    return [assertions[i] for i in sorted(chosen)]
+
+
 def ground_solver(assertions, timeout_ms, nscope=8, nterms=14, cap=120):
     """the finite-scope weakening of a VC given as a list of assertions (hypotheses and the negated goal)"""
     from .core import has_quant
@@ -436,14 +485,31 @@ def solve_one(args):
         try:
             s0 = z3.Solver()
             s0.from_string(text)
-            stages = [(4, 5, 30), (8, 14, 120)]
+            allas = list(s0.assertions())
+            stages = [(1, 4, 5, 30), (2, 4, 5, 30), (None, 4, 5, 30), (None, 8, 14, 120)]
             s = None
-            for (ns, nt, cp) in stages:
-                s = ground_solver(list(s0.assertions()), Z3_MS, ns, nt, cp)
+            for (lv, ns, nt, cp) in stages:
+                sub = allas if lv is None else cone_of_influence(allas, lv)
+                s = ground_solver(sub, Z3_MS, ns, nt, cp)
                 r0 = s.check()
-                log.append((f'z3-5.1(api) ground-instances scope={ns}', str(r0), round(time.time() - t0, 3)))
-                if r0 == z3.sat:
-                    break
+                log.append((f'z3-5.1(api) ground-instances cone={lv} scope={ns}', str(r0), round(time.time() - t0, 3)))
+                if r0 != z3.sat:
+                    continue
+                if lv is not None:
+                    # extend the partial candidate (cone of the goal) to all hypotheses: same scope, its constants fixed
+                    m1 = s.model()
+                    s = ground_solver(allas, Z3_MS, ns, nt, cp)
+                    for d in m1.decls():
+                        if d.arity() == 0 and not d.name().startswith(('fs!', 'fsd!', 'gsk!')):
+                            try:
+                                s.add(d() == m1[d])
+                            except Exception:
+                                pass
+                    r1 = s.check()
+                    log.append((f'z3-5.1(api) extend-candidate cone={lv}', str(r1), round(time.time() - t0, 3)))
+                    if r1 != z3.sat:
+                        continue
+                break
             for attempt in range(3):
                 r = s.check()
                 log.append(('z3-5.1(api) ground-instances', str(r), round(time.time() - t0, 3)))
